@@ -43,6 +43,8 @@ Step ==
                IF e.exc[1] # "exceeded" THEN Fail("C14.unexpected_exception")
                ELSE IF ~st.exc THEN Fail("C14.exceeded_iff")
                ELSE tk' = [tk EXCEPT ![a][i] = NoTk] /\ UNCHANGED bad
+          \* a step that is late raises IntervalExceeded at once: there is no suspension at which a signal could arrive first
+          [] e.e = "u" /\ st.exc /\ ~st.neg /\ e.exc # <<>> /\ e.exc[1] \in {"ci", "cs", "ct"} -> Fail("C14.exceeded_iff")
           [] e.e = "u" -> tk' = [tk EXCEPT ![a][i] = NoTk] /\ UNCHANGED bad
           [] OTHER -> UNCHANGED <<tk, bad>>
 Spec == Init /\ [][Step]_vars
